@@ -557,7 +557,7 @@ def run(ctx):
     bypkg = {c["pkg"]: c for c in cases}
 
     inp = "\n".join(json.dumps(c) for c in cases) + "\n"
-    moddir = os.path.join(vlib.BUILD, "harness_" + vlib.sha(vlib.REPO)) if vlib.PRIVATE else vlib.HARNESS
+    moddir = os.path.join(vlib.BUILD, "harness_" + getattr(vlib, "PTAG", vlib.sha(vlib.REPO))) if vlib.PRIVATE else vlib.HARNESS
     rc, out = ctx.run([impl, "-root", root, "-moddir", moddir], input=inp, timeout=300)
     if rc != 0:
         ctx.broken("correspondence(c09:harness)", "rc=%d %s" % (rc, out[-500:]))
